@@ -109,12 +109,16 @@ def run_pipeline(tier, seed, log=print):
         scheds += data["scheds"]
     # -- 2b. directed + random ---------------------------------------------------------------------------
     for name, s in sorted(directed.DIRECTED.items()):
-        scheds.append(dict(s, driver="directed", name=name))
+        scheds.append(dict(s, driver="directed", name=name, want_xlog=have_l1))
     nrand = {"quick": 3000, "thorough": 40000}[tier]
+    ncfg = {"quick": 30, "thorough": 120}[tier]
     for i in range(nrand):
         mode = i % 4
-        s = gen_random.make(seed * 1000003 + i, calm=(mode == 0), allow_size=(mode == 3))
+        # pool configurations come from a small seed space so that many schedules share one and can be followed in
+        # the implementation-level specification in one TLC run (code -> PoolImpl, spec/PoolFollow.tla)
+        s = gen_random.make(seed * 1000003 + i, calm=(mode == 0), allow_size=(mode == 3), cfgseed=(seed * 131 + i // 4) % ncfg)
         s["driver"] = "random"
+        s["want_xlog"] = have_l1
         scheds.append(s)
     for i in range(nrand // 10):
         s = gen_random.make_multi(seed * 1000003 + 500000 + i)
@@ -144,6 +148,28 @@ def run_pipeline(tier, seed, log=print):
     for s, r in tl:
         if r["drift"] is not None and len(res["drift"]) < 5:
             res["drift"].append({"drift": r["drift"], "cfg": s["cfg"], "cmds": s["cmds"][: r["drift"]["pos"] + 1]})
+    # code -> PoolImpl: follow the executed random / directed schedules in the model (drift is reported, never a verdict)
+    if have_l1:
+        t1 = time.time()
+        groups = {}
+        for s, r in good:
+            if r.get("xlog"):
+                k = json.dumps(s["cfg"], sort_keys=True)
+                groups.setdefault(k, (s["cfg"], [], []))
+                groups[k][1].append(r["xlog"])
+                groups[k][2].append(s)
+        gl = [(v[0], v[1]) for v in groups.values()]
+        fres, fstates = l1.follow(gl, wd, log)
+        flat = [(s, x) for v in groups.values() for s, x in zip(v[2], v[1])]
+        drifted = [(s, x, o) for (s, x), o in zip(flat, fres) if o["bad"] != 0]
+        res["followed"] = {"runs": len(fres), "agree": len(fres) - len(drifted), "drift": len(drifted), "configurations": len(gl),
+                           "commands": sum(len(x) for _, x in flat), "states": fstates,
+                           "drift_samples": [{"cfg": s["cfg"], "at": o["bad"], "cmds": x[max(0, o["bad"] - 5): max(o["bad"], 1)]}
+                                             for s, x, o in drifted[:2]]}
+        log("followed %d executed schedules (%d configurations, %d commands) in PoolImpl: %d agree, %d drift (%.1fs)" % (
+            len(fres), len(gl), res["followed"]["commands"], len(fres) - len(drifted), len(drifted), time.time() - t1))
+        for s, r in good:
+            r.pop("xlog", None)
     # -- 4. judge --------------------------------------------------------------------------------------------
     t1 = time.time()
     batch = 4000
